@@ -131,7 +131,17 @@ def assertion_rule(run, ctx):
         pc = H.pat_canon(arm["pat"])
         mm = re.match(r"^Expr::Assertion\((.*)\)$", pc)
         if mm:
-            ts_col[mm.group(1)] = (H.canon(arm["body"]), arm)
+            for alt in mm.group(1).split("|"):
+                mv = re.match(r"^(Assertion::\w+)\{crlf:([a-z_]\w*)\}$", alt)
+                if mv and mv.group(2) not in ("true", "false"):
+                    # one arm for both line-ending modes, decided by a test of the bound field
+                    for p in S.paths_of(arm["body"]):
+                        tr = [ev.b for ev in p.events if ev.kind == "cond" and ev.a == mv.group(2)]
+                        calls = [ev.a for ev in p.events if ev.kind == "call" and ev.a.startswith("buf.push")]
+                        if tr and calls:
+                            ts_col["%s{crlf:%s}" % (mv.group(1), "true" if tr[-1] else "false")] = (calls[-1], arm)
+                else:
+                    ts_col[alt] = (H.canon(arm["body"]), arm)
     is_hard = S.get_fn(run, ctx, "Assertion::is_hard", fam, label)
     hard_set = set()
     if is_hard is not None:
@@ -533,6 +543,56 @@ def printable_rule(run, ctx):
             n += 1
             if sorted(opens) != sorted(closes):
                 run.violation(fam, label, "paren/" + v, H.where(a), "Expr::%s: opening and closing parentheses are emitted under different conditions (%s vs %s)" % (v, opens, closes))
+    # what each arm may write into the pattern text handed to the inner engine: its own structural tokens, its
+    # children (to_str), quoted literal text, numbers.  Any other write (e.g. an alternation rendered as a bracket
+    # class) changes what the delegated pattern means
+    TOK = {
+        "Empty": set(), "Any": {'"(?s:.)"', '"."'},
+        "Literal": {'"(?i:"', "')'", '")"'}, "Delegate": {'"(?i:"', "')'", '")"'},
+        "Assertion": {"'^'", "'$'", '"(?m:^)"', '"(?m:$)"', '"(?Rm:^)"', '"(?Rm:$)"', '"^"', '"$"'},
+        "Concat": {'"(?:"', "')'", '")"'}, "Alt": {'"(?:"', "'|'", '"|"', "')'", '")"'}, "Group": {"'('", "')'", '"("', '")"'},
+        "Repeat": {'"(?:"', "')'", '")"', "'?'", "'*'", "'+'", "'{'", "','", "'}'", '"?"', '"*"', '"+"', '"{"', '","', '"}"'},
+    }
+    nw = 0
+    for v, al in arms.items():
+        for a in al:
+            binds = {p_["name"] for p_ in H.walk(a["pat"]) if p_.get("k") == "Binding"}
+            for nd in H.walk(a["body"]):
+                bad = None
+                if nd.get("k") == "MethodCall" and H.canon(nd["recv"]) == "buf":
+                    nw += 1
+                    arg = H.canon(nd["args"][0]) if nd.get("args") else ""
+                    if nd["name"] in ("push", "push_str"):
+                        argn = H.peel(nd["args"][0]) if nd.get("args") else {}
+                        consts = set()
+                        if argn.get("k") == "Lit":
+                            consts = {arg}
+                        elif argn.get("k") == "If":
+                            consts = {H.canon(H.peel(x)) for x in (argn.get("then"), argn.get("else")) if x is not None}
+                            consts = {c_ for c_ in consts}
+                        if consts and consts <= TOK.get(v, set()):
+                            continue
+                        if v in ("Delegate",) and arg in binds:
+                            continue
+                        bad = "buf.%s(%s)" % (nd["name"], arg)
+                    else:
+                        bad = "buf.%s(..)" % nd["name"]
+                elif nd.get("k") == "Call" and any(H.canon(a_) == "buf" for a_ in nd.get("args") or []):
+                    nw += 1
+                    fnm = H.canon(H.peel(nd["f"]))
+                    if fnm.endswith("push_quoted") and v in ("Literal",):
+                        continue
+                    if fnm.endswith("push_usize") and v == "Repeat":
+                        continue
+                    bad = H.canon(nd)[:60]
+                elif nd.get("k") == "MethodCall" and nd["name"] == "to_str" and any(H.canon(a_) == "buf" for a_ in nd.get("args") or []):
+                    nw += 1
+                    if v in ("Concat", "Alt", "Group", "Repeat"):
+                        continue
+                    bad = H.canon(nd)[:60]
+                if bad:
+                    run.violation(fam, label, "write/%s/%s" % (v, bad), H.where(nd), "Expr::%s arm of to_str writes %s: not one of the tokens that arm may contribute to the delegated pattern text (a different rendering -- e.g. single-character alternatives as a bracket class -- changes what the pattern means: `a|-|z` is not `[a-z]`)" % (v, bad))
+    run.floor(fam, label, H.where(ts_fn), nw, 25, "writes into the pattern text in to_str")
     # precedence levels
     prec = {"Concat": ("(1 < precedence)", "2"), "Alt": ("(0 < precedence)", "1"), "Repeat": ("(2 < precedence)", "3")}
     for v, (cond, childp) in prec.items():
@@ -592,7 +652,8 @@ def printable_rule(run, ctx):
             pf = S.PathFacts(p.events)
             small = pf.proves("Lt", X, 10)
             big = pf.proves("Ge", X, 10)
-            calls = [ev.a for ev in p.events if ev.kind == "call" and (ev.a.startswith("push_usize(") or ev.a.startswith("%s.push(" % Sb))]
+            sm_ = S.Summary(p)
+            calls = [c_ for c_ in sm_.calls if c_.startswith("push_usize(") or c_.startswith("%s.push(" % Sb)]
             if small:
                 good = good and calls == ["%s.push(((b'0' + (%s as u8)) as char))" % (Sb, X)]
             elif big:
@@ -813,6 +874,10 @@ def slot_rule(run, ctx):
         need(len(saves_in_loop) == len(inside) == 2, "copy-writes", "the Delegate arm writes capture slots only for participating groups (exactly the start and end of the pair)")
         need("ix = inner_slots[1].unwrap().get()" in c, "advance", "after a delegate with groups ix becomes the delegate's overall end (slot 1)")
         need("if %s.search_slots(input,inner_slots).is_some()" % IN in c and "else {break 'fail}" in c, "search-fail", "a failed delegate search fails the thread")
+    # the two representations of captures the rules below know about: a third one needs rules of its own
+    ci = [a for p_, a in ctx.facts.adts.items() if strip_generics(p_) == "CapturesImpl"]
+    if len(ci) != 1 or {v_["name"] for v_ in ci[0]["variants"]} != {"Wrap", "Fancy"}:
+        run.violation(fam, label, "captures-variants", "src/lib.rs", "CapturesImpl should have exactly the variants Wrap and Fancy (found %s): index, length and iteration semantics of another representation are not covered by these rules" % ([v_["name"] for v_ in ci[0]["variants"]] if ci else None))
     # Captures::get / len / truncate
     g = S.get_fn(run, ctx, "Captures::get", fam, label)
     if g is not None:
